@@ -17,6 +17,7 @@ import (
 
 	"github.com/honeycombio/refinery/collect"
 	"github.com/honeycombio/refinery/config"
+	"github.com/honeycombio/refinery/internal/health"
 	"github.com/honeycombio/refinery/internal/peer"
 	"github.com/honeycombio/refinery/logger"
 	"github.com/honeycombio/refinery/metrics"
@@ -258,6 +259,7 @@ func crossStartNode(o crossNodeOpts) (*crossNode, error) {
 			UpstreamTransmission: o.Upstream, PeerTransmission: ptx,
 			Sharder: n.Sharder, Collector: o.Collector, Metrics: met,
 			Tracer: noop.NewTracerProvider().Tracer("verif"),
+			Health: &health.MockHealthReporter{},
 		}
 		r.SetType(t)
 		r.LnS()
